@@ -44,6 +44,11 @@ def run_runner_case(case: dict[str, Any]) -> dict[str, Any]:
                 add_teardown_callback(make_cb(late), late["pass"])
                 log.append(["lreg", late["id"], late["pass"]])
 
+        # (signatures as users write them: exactly one required parameter with pass_exception, none without)
+        if spec["pass"] and not spec["async"]:
+            return lambda exc: cb(exc)
+        if not spec["async"]:
+            return lambda: cb()
         if spec["async"]:
             async def acb(*args: Any) -> None:
                 cb(*args)
@@ -118,7 +123,8 @@ def run_runner_case(case: dict[str, Any]) -> dict[str, Any]:
                     add_resource(TYPES[0](r["id"]), f"res{r['id']}", types=[TYPES[0], TYPES[1]],
                                  teardown_callback=cb)
                 else:
-                    add_teardown_callback(make_cb(r), r["pass"])
+                    # ("pass_exception" given as a truthy / falsy value that is no bool)
+                    add_teardown_callback(make_cb(r), (1 if r["pass"] else 0) if r["id"] % 3 == 0 else r["pass"])
                 log.append(["reg", r["id"], r["pass"]])
 
         await register(regs[:half])
